@@ -32,6 +32,7 @@ RULES_DOC["X4"] = common.X4_DOC
 RULES_DOC["R16"] = "work-unit constructors initialise every ABTI_thread field that a revive re-initialises (state, request, function, argument, parent, last stream): descriptors are recycled by the memory pool, so a constructor that leaves `request` alone lets a new unit inherit a stale cancel or migration request"
 RULES_DOC["R18"] = "= C11.R4: yield_to takes the target out of the TARGET's pool: removing from the caller's pool drops another unit that waits there and leaves the target queued for a second start"
 RULES_DOC["R20"] = "= C17.R6: a scan over a scheduler's pools is bounded by the pool count of the SAME scheduler: replacing the main scheduler re-associates the calling unit whichever pool of the old scheduler it lives in (otherwise it is suspended on a pool that is never drained)"
+RULES_DOC["R22"] = "= C07.R10: ABT_sched_get_total_size counts the blocked units of the scheduler's pools: a user-defined scheduler that stops when it reports 0 does not abandon a unit that is blocked and will be pushed back"
 RULES_DOC["R21"] = "= C19.R2: a timed-out waiter unlinks itself completely (predecessor link and, when it was the tail, the tail pointer): a waiter appended behind a stale tail is unreachable and never woken"
 RULES_DOC["R19"] = "= C13.R4: a unit is migrated only to a stream observed RUNNING under the stream-list lock: pushed to the pool of a joined stream it would never complete"
 RULES_DOC["R17"] = "= C06.R1/R3/R4: a unit that blocks is counted on the pool it belongs to after request handling (a blocked unit whose pool looks idle is lost when the only stream of that pool is joined)"
@@ -624,3 +625,4 @@ def run(P, rep, tier):
     from . import C17, C19
     common.borrow(rep, P, C17.rule_R6, "R20")
     common.borrow(rep, P, C19.rule_R2, "R21")
+    common.borrow(rep, P, C07.rule_R10, "R22")
